@@ -78,7 +78,7 @@ def equalsRef (E : Env) (f : Field) (v : Str) (e : Value) : Bool :=
     else match valueAt f e with
       | some x => stringValue E x == utf8 v
       | none => false
-  | .attribute _ => match valueAt f e with
+  | .attr _ => match valueAt f e with
     | some x => stringValue E x == utf8 v
     | none => false
 
@@ -113,7 +113,7 @@ def compareValue (E : Env) (c : Cmp) (cv : CV) (x : Value) : Bool :=
 
 def compareRef (E : Env) (f : Field) (c : Cmp) (cv : CV) (e : Value) : Bool :=
   match f with
-  | .attribute _ => match valueAt f e with
+  | .attr _ => match valueAt f e with
     | some x => compareValue E c cv x
     | none => false
   | .tag tag => (tagValues E tag e).any fun v => cmpBytes c v (utf8 (cv.toText E.F))
